@@ -4,12 +4,12 @@ import json, os
 
 ROOT = os.path.dirname(os.path.dirname(os.path.abspath(__file__)))
 
-SWEEP_NOTE = " Both tiers also run the exhaustive small-scope sweep of this family (all scripts x all schedules for n <= 2, every container, 3 configurations)."
+SWEEP_NOTE = " Both tiers also run the exhaustive small-scope sweep of this family (all scripts x all schedules for n <= 2, every container, 3 configurations) and an engine-T layer (the same reference model while the children's wakers are fired from other threads)."
 
 COMMON_NOTE = (
     "Trusted base: the harness (scripted children, adversarial executor, event log, reference models in /verif/harness/src) and "
-    "the generators' bounds (tuple arity <= 12, array lengths {0,1,2,3,4,5,8,13,257}, Vec lengths up to 257, scripts <= 8 steps, one "
-    "level of nesting; deliberately not observed: use of a combinator after a panic unwound out of it, panicking destructors, stack depth). Holds only for the executions generated; a timed-out shard or crashed tool is inconclusive."
+    "the generators' bounds (tuple arity <= 12, array lengths {0,1,2,3,4,5,8,13,23,64,65,257}, Vec lengths up to 257, scripts <= 8 steps, one "
+    "level of nesting (two levels in a fifth of the nested cases); deliberately not observed: use of a combinator after a panic unwound out of it, panicking destructors, stack depth). Holds only for the executions generated; a timed-out shard or crashed tool is inconclusive."
 )
 
 # id -> (technique, level text, design ref, engine)
@@ -22,7 +22,7 @@ CHECKS = {
             "Each child poll is checked online: never after the child completed or was dropped, only while a harness-issued poll of the owning combinator is in progress (never in construction, group operations, or drop), never after the combinator produced its final result.", "5/C03"),
     "C20": ("runtime monitoring: I2 (every owned, not-held-back child polled once Pending is returned) + progress oracle I6 with forced never-completing siblings",
             "Workloads force 1..n-1 never-completing children at random positions; whenever the combinator returns Pending every owned active child must have been polled, and at quiescence every other child must have run to completion and (race/race_ok/merge/groups) its result delivered per the reference model.", "5/C20"),
-    "C04": ("runtime monitoring: per-poll reference model of join (positional outputs, resolves in the poll of the last completion)", "Each poll's return value is compared with a reference model fed by what the children actually returned in that poll; output ids are unique so position mix-ups are unambiguous; Vec lengths cross the 22/23 and 64/65 boundaries.", "5/C04"),
+    "C04": ("runtime monitoring: per-poll reference model of join (positional outputs, resolves in the poll of the last completion)", "Each poll's return value is compared with a reference model fed by what the children actually returned in that poll; output ids are unique so position mix-ups are unambiguous; array and Vec lengths cross the 22/23 and 64/65 boundaries.", "5/C04"),
     "C05": ("runtime monitoring: per-poll reference model of try_join (first observed error short-circuits; values dropped not returned)", "Per-poll model comparison plus exactly-once accounting of the values produced by siblings and the no-poll-after-decision rule.", "5/C05"),
     "C06": ("runtime monitoring: per-poll reference model of race (first child seen Ready wins, nothing polled afterwards, losers dropped unfinished with the race)", "Per-poll model comparison; several children ready in the same poll are generated on purpose.", "5/C06"),
     "C07": ("runtime monitoring: per-poll reference model of race_ok (first Ok wins; aggregate error positional, only when all failed)", "Per-poll model comparison with unique error ids, out-of-order failures induced by the schedule.", "5/C07"),
@@ -40,7 +40,7 @@ CHECKS = {
 }
 
 checks = []
-EXTRA = {'C02': ' Workloads also vary what only inputs can show: Vec inputs with spare capacity, child types without drop glue, zero-sized outputs/items (engine Z), children whose destructor wakes a waker.', 'C03': ' Streams are additionally polled by the consumer after their final None (stale wakes in between); a quarter of the std shards run a build without debug assertions.', 'C11': " 'Mass' histories (11-18 members inserted in a burst, degenerate scripts) make ten and more members finish in one poll; an engine-T layer fires the members' wakers from other threads.", 'C12': " 'Mass' histories (11-18 members inserted in a burst, degenerate scripts) make ten and more members end in one poll; an engine-T layer fires the members' wakers from other threads.", 'C14': ' After the first Err no in-flight work future may be driven to completion, and the operation must not remain Pending at quiescence even if siblings never complete.', 'C15': ' Items taken OUT OF THE SOURCE are bounded by take(n) as well (an item pulled and thrown away is lost); non-fused sources, huge limits, zero-sized items.', 'C16': ' An engine-T layer checks the same invariant under wake-ups from other threads (announced / in-flight wake-call accounting).', 'C17': ' 4 % long runs (530-830 yields), one or two always-ready inputs, Vec merges of 24..129 inputs, and an engine-T layer (fairness under wake-ups from other threads).', 'C20': " An engine-T layer repeats this with the siblings' wakers fired from other threads.", 'C19': ' Flat wait_until streams also get non-fused inner streams (the consumer polls on after None and the wrapper must forward), and inner streams with exact size hints.'}
+EXTRA = {'C02': ' Workloads also vary what only inputs can show: Vec inputs with spare capacity, child types without drop glue, zero-sized outputs/items (engine Z), children whose destructor wakes a waker.', 'C03': ' An engine-T layer repeats the invariant with wakers fired from other threads. Streams are additionally polled by the consumer after their final None (stale wakes in between); a quarter of the std shards run a build without debug assertions.', 'C11': " 'Mass' histories (11-18 members inserted in a burst, degenerate scripts) make ten and more members finish in one poll; an engine-T layer fires the members' wakers from other threads.", 'C12': " 'Mass' histories (11-18 members inserted in a burst, degenerate scripts) make ten and more members end in one poll; an engine-T layer fires the members' wakers from other threads.", 'C14': ' After the first Err no in-flight work future may be driven to completion, and the operation must not remain Pending at quiescence even if siblings never complete.', 'C15': ' Items taken OUT OF THE SOURCE are bounded by take(n) as well (an item pulled and thrown away is lost); non-fused sources, huge limits, zero-sized items.', 'C16': ' An engine-T layer checks the same invariant under wake-ups from other threads (announced / in-flight wake-call accounting).', 'C17': ' 4 % long runs (530-830 yields), one or two always-ready inputs, Vec merges of 24..129 inputs, and an engine-T layer (fairness under wake-ups from other threads).', 'C20': " An engine-T layer repeats this with the siblings' wakers fired from other threads.", 'C19': ' Flat wait_until streams also get non-fused inner streams (the consumer polls on after None and the wrapper must forward), and inner streams with exact size hints; an engine-T layer fires the deadline\'s and the inner child\'s wakers from other threads.'}
 
 for pid, (tech, text, ref) in CHECKS.items():
     text += EXTRA.get(pid, "")
